@@ -437,6 +437,53 @@ theorem doubleLoop_spec (f : TransFns Rat) (rt b a : Rat) (fuel : Nat) (v0 : Rat
         have : ¬ prP rt b a v0 ≤ 0 := hp
         simpa using not_le.mp this
 
+theorem lookupK_mem (tab : List ((String × String) × Rat)) (a b : String) (k : Rat) :
+    lookupK tab a b = some k → ∃ e ∈ tab, e.1.1 = a ∧ e.1.2 = b := by
+  induction tab with
+  | nil => intro h; simp [lookupK] at h
+  | cons e rest ih =>
+    obtain ⟨⟨x, y⟩, v⟩ := e
+    intro h
+    simp only [lookupK] at h
+    by_cases hk : (x == a && y == b) = true
+    · simp only [Bool.and_eq_true, beq_iff_eq] at hk
+      exact ⟨((x, y), v), by simp, hk.1, hk.2⟩
+    · rw [if_neg hk] at h
+      obtain ⟨e, he, h1, h2⟩ := ih h
+      exact ⟨e, by simp [he], h1, h2⟩
+
+/-- the run-time test `symmetricTab` (evaluated by `pmodel gas` on the map read back from the engine) discharges the
+hypothesis of `binaryFactor_symm` -/
+theorem symmetricTab_sound (tab : List ((String × String) × Rat)) (h : symmetricTab tab = true) :
+    ∀ a b, lookupK tab a b = lookupK tab b a := by
+  have hall : ∀ e ∈ tab, lookupK tab e.1.1 e.1.2 = lookupK tab e.1.2 e.1.1 := by
+    intro e he
+    have := (List.all_eq_true.mp h) e he
+    simpa using this
+  intro a b
+  cases h1 : lookupK tab a b with
+  | some k =>
+    obtain ⟨e, he, rfl, rfl⟩ := lookupK_mem tab a b k h1
+    rw [← hall e he, h1]
+  | none =>
+    cases h2 : lookupK tab b a with
+    | none => rfl
+    | some k =>
+      obtain ⟨e, he, rfl, rfl⟩ := lookupK_mem tab b a k h2
+      have := hall e he
+      rw [h2, h1] at this
+      exact this.symm
+
+/-- the binary factor the mixing rule uses is symmetric in the two gases for every map that passes the run-time test -/
+theorem binaryFactor_symm_of_check (f : TransFns Rat) (tab : List ((String × String) × Rat)) (n1 n2 : String)
+    (h : symmetricTab tab = true) :
+    letI := ratOps f
+    binaryFactor tab n1 n2 = binaryFactor tab n2 n1 :=
+  binaryFactor_symm f tab n1 n2 (symmetricTab_sound tab h)
+
+example : symmetricTab [(("CO2(g)", "CH4(g)"), (1 / 10 : Rat)), (("CH4(g)", "CO2(g)"), 1 / 10)] = true := by decide +kernel
+example : symmetricTab [(("CO2(g)", "CH4(g)"), (1 / 10 : Rat))] = false := by decide +kernel
+
 /-- consequence for the converged numerical fixed-volume state (the known departure
 `fixedV-numerical-negative-PR-pressure`): the mole numbers are `p_soln/P · V / v_m` with the *stored* molar volume;
 if that is `2^k` times the true molar volume `V/n`, the equilibrium partial pressures sum to `2^k · P`, not to `P` -/
